@@ -85,9 +85,43 @@ def walk(rng, cells, target, nseg, styles, break_prob):
     return path
 
 
+def broadcast(rng):
+    """a regular nest of lists / dicts `depth` levels deep and a path with one wildcard per level followed by a final key or
+    index: (cells, path).  Leaves are dicts (final key) or short lists (final index); some leaves lack the final key."""
+    depth = rng.choice([1, 2, 2, 3, 3, 4])
+    leaf_kind = rng.choice(['dict', 'dict', 'list'])
+    cells = []
+
+    def mk(level):
+        idx = len(cells)
+        cells.append(None)
+        if level == depth:
+            if leaf_kind == 'dict':
+                items = [['k', rng.choice([1, 2, 'v'])], ['n', 0]]
+                if rng.random() < 0.2:
+                    items = [['n', 0]]                      # the final key is missing here
+                cells[idx] = {'k': 'dict', 'od': False, 'items': items}
+            else:
+                cells[idx] = {'k': 'list', 'items': [0, 0][:rng.choice([2, 2, 1])]}
+            return idx
+        kids = [mk(level + 1) for _ in range(rng.choice([1, 2, 2, 3]))]
+        if rng.random() < 0.6:
+            cells[idx] = {'k': 'list', 'items': [{'ref': k} for k in kids]}
+        else:
+            cells[idx] = {'k': 'dict', 'od': False, 'items': [['c%d' % j, {'ref': k}] for j, k in enumerate(kids)]}
+        return idx
+    mk(0)
+    star = [rng.choice(['x', 'x', 'x', 'X'])] if depth == 1 else ['x']
+    path = [[star[0]] for _ in range(depth)] + [['P', 'k'] if leaf_kind == 'dict' else rng.choice([['P', '0'], ['P', 0], ['[', 0], ['P', '1']])]
+    return cells, path
+
+
 def generate(rng, tier):
     n = 1500 if tier == 'quick' else 12000
     out = []
+    for _ in range(n // 8):
+        cells, path = broadcast(rng)
+        out.append({'cells': cells, 'target': {'ref': 0}, 'path': path, 'val': {'lit': rng.choice([9, 'w'])}, 'missing': None})
     g = HeapGen(rng, cyclic=0.2)
     for _ in range(n):
         cells = g.heap(rng.randint(1, 7))
